@@ -145,4 +145,5 @@ let () =
               else "ok"
           | _ -> "fail:no-answer" in
         Mlutil.print_model model verdict
+    | "asm12", _ -> Mlutil.asm_case outs
     | _ -> Mlutil.print_model ["UNKNOWN-KIND"] "ok")
